@@ -351,6 +351,25 @@ def run(ctx):
         d = t["f"].get("def", "")
         if d.rsplit("::", 1)[-1] in ("saturating_sub", "checked_sub", "wrapping_sub") and t["args"] and L.is_field_read(TP, "max_tokens_total")(L.strip_wrappers(ct.expr(t["args"][0]))):
             charge.append(bi)
+    # a helper that charges and reports through its Result (`self.charge()?`): when every Ok return of the helper is preceded by the
+    # decrement, the Continue arm of the `?` on that call is a charge point (the Err arm leaves consume_token)
+    def _charges_on_ok(hb):
+        ch = []
+        for bi_, si_, st_ in hb.statements():
+            if st_["s"] == "assign" and F.place_fields(st_["p"])[-1:] == [(TP, "max_tokens_total")]:
+                ev = hb.expr_rvalue(st_["r"])
+                if (ev[0] == "bin" and ev[1] == "Sub") or (ev[0] == "call" and "sub" in ev[1].rsplit("::", 1)[-1]) or ev[0] in ("place", "local"):
+                    ch.append(bi_)
+        oks = [bi_ for bi_, si_, st_ in hb.statements() if st_["s"] == "assign" and st_["p"] == [0] and st_["r"].get("rv") == "agg"
+               and isinstance(st_["r"].get("kind"), dict) and st_["r"]["kind"].get("variant") == "Ok"]
+        return bool(ch) and bool(oks) and not [o for o in oks if o in hb.reachable(0, cut_blocks=ch)]
+    hidden = getattr(P, "hidden", {})
+    for sb, e, targets, otherwise in ct.switch_edges():
+        if e[0] == "discr" and e[1][0] == "call" and e[1][1].endswith("Try>::branch") and e[1][2] and e[1][2][0][0] == "call":
+            hid = e[1][2][0][1]
+            hb = hidden.get(hid) or P.bodies.get(hid)
+            if hb is not None and hid.startswith(TP + "::") and _charges_on_ok(hb):
+                charge += [t for v, t in targets if int(v) == 0]
     grow = [bi for bi, (w, m, r) in be.items() if any(fld == (TP, "llm_tokens") and c.rsplit("::", 1)[-1] in ("push", "extend", "extend_from_slice", "append", "insert") for fld, c in m)]
     grow += ct.call_blocks(TP + "::apply_token")
     uncharged = [g for g in grow if g in ct.reachable(0, cut_blocks=charge)] if charge else grow
